@@ -206,6 +206,7 @@ type roundsMonitor struct {
 
 	// statistics
 	rotations, exactExpiry, lateByOne, retips, tipOnReported, depositAcc, withdrawTry, jailedTry int
+	depositRollover                                                                              int
 	submits, accepted, evalRound, skipRound, evalStake, skipStake, evalJail                      int
 	aggregates, replacements, unexpectedReject, govListUpdates, windows0, tipKept                int
 	rejectWhy                                                                                    map[string]int
@@ -383,6 +384,9 @@ func (m *roundsMonitor) After(c *Chain, w *World, br *BlockResult, outs []TxOutc
 			}
 			if kind == "deposit" {
 				m.depositAcc++
+				if haveRound && first && r.Exp <= h && prev.RepCount[r.ID] > 0 {
+					m.depositRollover++ // a deposit round that holds reports is reported to at/after its expiry height
+				}
 				continue
 			}
 			if !first {
@@ -417,7 +421,17 @@ func (m *roundsMonitor) After(c *Chain, w *World, br *BlockResult, outs []TxOutc
 			atH[k] = append(atH[k], r)
 		}
 	}
+	aggNow := map[uint64]bool{}
+	for _, a := range aggs {
+		aggNow[a.MetaID] = true
+	}
 	for k, rs := range atH {
+		// a report enters a round: the round it is stored under exists after the block, or aggregated in this block
+		for _, r := range rs {
+			if _, open := cur.ByID[r.ID]; !open && !aggNow[r.ID] {
+				return pbt.Violf("C07/report/stored-under-nonexistent-round", "block %d: the accepted report %+v is stored under round id %d, but no such round is stored and none was aggregated in this block (it can never be aggregated)", h, r, r.ID)
+			}
+		}
 		v, ok := lastVal[k]
 		if !ok {
 			return pbt.Violf("C07/report/stored-without-accepted-submit", "block %d: stored report %+v has this block's height but no submit of that reporter for that query was accepted in it", h, rs[0])
@@ -697,4 +711,81 @@ func TestC07_Rounds(t *testing.T) {
 	runHistoryProp(t, "C07", "TestC07_Rounds",
 		"histories of 10-36 blocks x 0-5 transactions (tips, reports incl. re-reports, deposits with/without tips, withdrawal queries, custom specs with windows 0-4 registered up front, governance replacement of the cycle list and of report windows, disputes that jail reporters, unjail, undelegation), reports placed by late binding on rounds that expire at h-1, h or later; reference round model over consecutive committed states; non-trivial = (>=1 accepted report at exactly the expiry height or >=1 re-tip of an expired unreported round or >=1 accepted deposit report) and >=3 cycle-list rotations; distinct by SHA-256 of the history JSON",
 		roundsProfile(), func() Monitor { return newRoundsMonitor() })
+}
+
+// ---------------------------------------------------------------- long rounds: untipped bridge-deposit rounds last 2000 blocks
+
+// genLongDeposit places deposit reports around the expiry height of an untipped deposit round (opened by a direct
+// report, hard-coded window of 2000 blocks): the blocks in between are operation-free (Block.Idle).
+func genLongDeposit(rt *rapid.T) History {
+	p := roundsProfile()
+	p.MinBlocks, p.MaxBlocks, p.ThoroughScale = 2, 6, 1
+	h := GenHistory(rt, p, false)
+	nActors := h.Genesis.NumValidators + h.Genesis.NumUsers
+	dep := 11 + uni(rt, "depositQuery", 3) // catalog: deposit-1..3
+	sub := func(label string) Op {
+		return Op{K: OpSubmit, A: uni(rt, label+"Actor", nActors), R: [3]int{dep, 8 * uni(rt, label+"Val", 8), 1 + 2*uni(rt, label+"Rcpt", 3) + 8*uni(rt, label+"Pool", 3)}}
+	}
+	subs := func(label string, lo, hi int) []Op {
+		var ops []Op
+		n := rapid.IntRange(lo, hi).Draw(rt, label+"N")
+		for i := 0; i < n; i++ {
+			ops = append(ops, sub(fmt.Sprintf("%s%d", label, i)))
+		}
+		return ops
+	}
+	a := Block{Gap: GapSpec{Kind: 2}, Ops: subs("open", 1, 2)}
+	h.Blocks = append(h.Blocks, a)
+	n1 := uni(rt, "fillers", 3)
+	for i := 0; i < n1; i++ {
+		b := Block{Gap: GapSpec{Kind: 2}, Ops: subs(fmt.Sprintf("fill%d", i), 0, 1)}
+		if uni(rt, "fillTip", 8) == 0 {
+			b.Ops = append(b.Ops, Op{K: OpTip, A: uni(rt, "tipper", nActors), R: [3]int{dep, 8, 0}, Amt: Amount{Kind: AmtAbs, N: 1_000_000}})
+		}
+		h.Blocks = append(h.Blocks, b)
+	}
+	delta := []int{-1, 0, 0, 0, 1}[uni(rt, "delta", 5)]
+	b := Block{Gap: GapSpec{Kind: 2}, Idle: 1999 - n1 + delta, Ops: subs("edge", 1, 2)}
+	if uni(rt, "edgeTip", 8) == 0 {
+		b.Ops = append([]Op{{K: OpTip, A: uni(rt, "tipper2", nActors), R: [3]int{dep, 8, 0}, Amt: Amount{Kind: AmtAbs, N: 1_000_000}}}, b.Ops...)
+	}
+	h.Blocks = append(h.Blocks, b)
+	for i := 0; i < 1+uni(rt, "after", 3); i++ {
+		h.Blocks = append(h.Blocks, Block{Gap: GapSpec{Kind: 2}, Ops: subs(fmt.Sprintf("after%d", i), 0, 2)})
+	}
+	h.Blocks = append(h.Blocks, Block{Gap: GapSpec{Kind: 2}}, Block{Gap: GapSpec{Kind: 2}})
+	return h
+}
+
+func TestC07_LongDepositRound(t *testing.T) {
+	pbt.Run(t, pbt.Prop[History]{Property: "C07", Name: "TestC07_LongDepositRound",
+		Rule: "a short generated prefix, then 1-2 direct reports open an untipped bridge-deposit round (window 2000 blocks), ~2000 operation-free blocks, further deposit reports one block before / exactly at / one block after the round's expiry height (sometimes preceded by a tip), more reports afterwards; same reference round model as TestC07_Rounds; non-trivial = >=1 deposit report accepted at or after the expiry height of a round that held reports; distinct by SHA-256 of the history JSON",
+		Gen: genLongDeposit,
+		Check: func(h History, info *pbt.CaseInfo, st *pbt.Stats) error {
+			mon := newRoundsMonitor()
+			rs, _, v, err := RunHistory(h, mon)
+			if err != nil {
+				return err
+			}
+			mon.Classify(info)
+			info.Nontrivial = mon.depositRollover > 0
+			if mon.depositRollover > 0 {
+				info.Classes = append(info.Classes, "deposit-report-at-or-after-expiry-of-reported-round")
+			}
+			st.Count("blocks", int64(rs.Blocks))
+			st.Count("ops_accepted", int64(rs.OpsOK))
+			if rs.HarnessStop {
+				st.Count("harness_stops", 1)
+			}
+			for k, n := range rs.ByKindOK {
+				st.Count("ok/"+k, int64(n))
+			}
+			for k, n := range rs.ByKindFail {
+				st.Count("rejected/"+k, int64(n))
+			}
+			if v != nil {
+				return v
+			}
+			return nil
+		}})
 }
